@@ -116,7 +116,7 @@ func (e *deferred) Resolve(c px.Context, scope px.Keyed) px.Value {
 		da = ResolveDeferred(c, da, scope).(*Array)
 	}
 
-	if fn[0] == '$' {
+	if len(fn) > 0 && fn[0] == '$' {
 		vn := fn[1:]
 		vv, ok := scope.Get(stringValue(vn))
 		if !ok {
